@@ -72,7 +72,7 @@ Definition LSTSQ (c : lstsq_cfg) (A b : mat) : option mat :=
   if has_nan sol then None          (* AssertionError *)
   else Some (strip sol).
 
-(* ---- Cholesky.forward (after the repair, /repo 50a1217):
+(* ---- Cholesky.forward (after the repair, /repo 3f16d24):
         L, info = cholesky_ex(A, upper)
         assert not any(isnan(L)) and not any(info != 0)
         return b.cholesky_solve(L, upper) ---- *)
